@@ -118,3 +118,97 @@ Example C07_ex_expiry_reported :
   (existsb is_list (snd o), rs_allowed (fst o), hd "" (rs_warnings (fst o)), List.length (eval_events (snd o)))
   = (true, true, "new PodSecurity enforce level only checked against the first 1 of 3 existing pods", 1).
 Proof. vm_compute. reflexivity. Qed.
+
+(** ---- the real sources (Model/Sources.v: namespace getter from lister+client, pod lister from
+    client or informer); every proof lives in Proofs/SourcesFacts.v ---- *)
+From PSA Require Import Model.Sources Proofs.SourcesFacts.
+
+(** a listing is the whole cached list or the whole live list, never part of one *)
+Theorem C07_sources_list_all_or_error : forall wi cl f l, list_pods wi cl f = Some l ->
+  l = (if wi_pods_informer wi then cl_cached_pods cl else cl_live_pods cl).
+Proof. exact C07_sources_list_all_or_error_proof. Qed.
+Print Assumptions C07_sources_list_all_or_error.
+
+(** ... and it is an error exactly when the live lister is wired and the LIST fails *)
+Theorem C07_sources_list_error_iff : forall wi cl f,
+  list_pods wi cl f = None <-> (wi_pods_informer wi = false /\ f_list f = true).
+Proof. exact C07_sources_list_error_iff_proof. Qed.
+Print Assumptions C07_sources_list_error_iff.
+
+(** whenever the dry run asks the live lister and the LIST fails, the update is
+    allowed and the failure is the (only) warning *)
+Theorem C07_sources_list_failure_reported : forall c ev r wi cl f exp now,
+  is_namespaces r = true -> wi_pods_informer wi = false -> f_list f = true ->
+  existsb is_list (snd (validate c ev r (world_of wi cl f (r_namespace r) exp now))) = true ->
+  rs_allowed (fst (validate c ev r (world_of wi cl f (r_namespace r) exp now))) = true /\
+  rs_warnings (fst (validate c ev r (world_of wi cl f (r_namespace r) exp now)))
+  = ["failed to list pods while checking new PodSecurity enforce level"%string].
+Proof. exact C07_sources_list_failure_reported_proof. Qed.
+Print Assumptions C07_sources_list_failure_reported.
+
+(** a pod request whose namespace lookup fails through the real sources fails closed with a 500 *)
+Theorem C07_sources_lookup_failure_closed : forall c ev r wi cl e exp now lf,
+  is_pods r = true -> s_ignored_sub (r_subresource r) = false ->
+  s_exempt (r_namespace r) (cf_ex_namespaces c) = false -> s_exempt (r_user r) (cf_ex_users c) = false ->
+  get_namespace wi cl (Faults (Some e) lf) (r_namespace r) = (None, e) ->
+  rs_allowed (fst (validate c ev r (world_of wi cl (Faults (Some e) lf) (r_namespace r) exp now))) = false /\
+  rs_code (fst (validate c ev r (world_of wi cl (Faults (Some e) lf) (r_namespace r) exp now))) = Some 500%Z.
+Proof. exact C07_sources_lookup_failure_closed_proof. Qed.
+Print Assumptions C07_sources_lookup_failure_closed.
+
+(** the lookup hypothesis above holds whenever the live GET is really made: the name
+    is not empty, and there is no lister or the lister does not know the namespace *)
+Theorem C07_sources_lookup_fault : forall wi cl e lf name,
+  name <> "" -> (wi_ns_lister wi = false \/ lookup name (cl_cached_ns cl) = None) ->
+  get_namespace wi cl (Faults (Some e) lf) name = (None, e).
+Proof. exact get_namespace_fault. Qed.
+Print Assumptions C07_sources_lookup_fault.
+
+(** ---- examples ---- *)
+Definition ex07_L1 : labels := [("pod-security.kubernetes.io/enforce", "baseline")].
+Definition ex07_L2 : labels := [("pod-security.kubernetes.io/enforce", "restricted")].
+Definition ex07_cluster : cluster :=
+  Cluster [("ns", ex07_L1)] [("ns", ex07_L2); ("other", [])] [ex07_pod] [ex07_pod; ex07_pod].
+
+(** the lister answers from the cache (possibly stale), the plain client from the API server;
+    a namespace in neither is NotFound; a failing LIST is an error only for the live lister *)
+Example C07_sources_example :
+  get_namespace (Wiring true false) ex07_cluster (Faults None false) "ns" = (Some ex07_L1, "") /\
+  get_namespace (Wiring false false) ex07_cluster (Faults None false) "ns" = (Some ex07_L2, "") /\
+  get_namespace (Wiring true false) ex07_cluster (Faults None false) "other" = (Some [], "") /\
+  get_namespace (Wiring true false) ex07_cluster (Faults None false) "gone" = (None, not_found_text "gone") /\
+  get_namespace (Wiring false false) ex07_cluster (Faults None false) "gone" = (None, "namespaces ""gone"" not found") /\
+  get_namespace (Wiring true false) ex07_cluster (Faults (Some "boom") false) "ns" = (Some ex07_L1, "") /\
+  get_namespace (Wiring false false) ex07_cluster (Faults (Some "boom") false) "ns" = (None, "boom") /\
+  list_pods (Wiring true false) ex07_cluster (Faults None true) = None /\
+  list_pods (Wiring false false) ex07_cluster (Faults None true) = None /\
+  list_pods (Wiring true true) ex07_cluster (Faults None true) = Some (cl_cached_pods ex07_cluster) /\
+  list_pods (Wiring false true) ex07_cluster (Faults None true) = Some (cl_cached_pods ex07_cluster) /\
+  list_pods (Wiring false false) ex07_cluster (Faults None false) = Some (cl_live_pods ex07_cluster).
+Proof. vm_compute. repeat split. Qed.
+
+(** non-vacuous: a namespace update through the real sources whose live LIST fails *)
+Example C07_sources_ex_list_failure :
+  let r := Request "" "namespaces" "" "" "ns" "u" OpUpdate (ONamespace "ns" ex07_L2) (ONamespace "ns" []) None in
+  let o := validate ex07_cfg ex07_deny_all r
+             (world_of (Wiring true false) ex07_cluster (Faults None true) (r_namespace r) None 0) in
+  (is_namespaces r, existsb is_list (snd o), rs_allowed (fst o), rs_warnings (fst o))
+  = (true, true, true, ["failed to list pods while checking new PodSecurity enforce level"]).
+Proof. vm_compute. reflexivity. Qed.
+(** ... the same update with the informer wired never sees the fault: the cached pod is evaluated *)
+Example C07_sources_ex_list_informer :
+  let r := Request "" "namespaces" "" "" "ns" "u" OpUpdate (ONamespace "ns" ex07_L2) (ONamespace "ns" []) None in
+  let o := validate ex07_cfg ex07_deny_all r
+             (world_of (Wiring true true) ex07_cluster (Faults None true) (r_namespace r) None 0) in
+  (rs_allowed (fst o), List.length (eval_events (snd o)), List.length (rs_warnings (fst o))) = (true, 1, 2).
+Proof. vm_compute. reflexivity. Qed.
+(** non-vacuous: a pod request in a namespace the lister does not know, whose live GET fails *)
+Example C07_sources_ex_lookup_failure :
+  let r := Request "" "pods" "" "gone" "p" "u" OpCreate (OPod ex07_pod) ONil None in
+  let f := Faults (Some "etcd unavailable") false in
+  let o := validate ex07_cfg ex07_allow_all r (world_of (Wiring true false) ex07_cluster f (r_namespace r) None 0) in
+  (is_pods r, s_ignored_sub (r_subresource r), s_exempt (r_namespace r) (cf_ex_namespaces ex07_cfg),
+   s_exempt (r_user r) (cf_ex_users ex07_cfg), get_namespace (Wiring true false) ex07_cluster f (r_namespace r),
+   rs_allowed (fst o), rs_code (fst o))
+  = (true, false, false, false, (None, "etcd unavailable"), false, Some 500%Z).
+Proof. vm_compute. reflexivity. Qed.
